@@ -143,6 +143,11 @@ ELEMS = {
     "tuple_open": ("m: int", "Array([Integer(minimum=m), String()])", SV, SVPRE, "thorough"),
     "tuple_addl_elem": ("m: int", "Array([Integer(minimum=m)], additionalItems=Number())", SV, SVPRE, "quick"),
     "tuple_addl_any": ("m: int", "Array([Integer(minimum=m)], additionalItems=Element())", SV, SVPRE, "thorough"),
+    "tuple_addl_null": ("m: int", "Array([String(maxLength=2), Integer(minimum=m)], additionalItems=Null())", "Union[int, List[Union[int, str, None]]]", ["not isinstance(v, list) or (len(v) <= 3 and all((not isinstance(x, str)) or len(x) <= 1 for x in v))"], "quick"),
+    "tuple_null_addl_int": ("m: int", "Array([Null()], additionalItems=Integer(minimum=m))", "Union[int, List[Union[int, None]]]", ["not isinstance(v, list) or len(v) <= 3"], "quick"),
+    "tuple_addl_nothing": ("m: int", "Array([Integer(minimum=m)], additionalItems=Nothing())", "Union[int, List[Union[int, None]]]", ["not isinstance(v, list) or len(v) <= 2"], "thorough"),
+    "array_null": ("m: int", "Array(Null(), maxItems=2)", "Union[int, List[Union[int, None]]]", ["not isinstance(v, list) or len(v) <= 2"], "thorough"),
+    "anyof_null_first": ("m: int", "AnyOf(Null(), Integer(minimum=m), Array(Null()))", "Union[int, None, List[Union[int, None]]]", ["not isinstance(v, list) or len(v) <= 2"], "quick"),
     "anyof": ("m: int", "AnyOf(Integer(minimum=m), Array(Number()), Null())", SV, SVPRE, "quick"),
     "anyof_any": ("m: int", "AnyOf(Integer(minimum=m), Element(maximum=m))", SV, SVPRE, "thorough"),
     "oneof": ("m: int", "OneOf(Integer(minimum=m), Number(maximum=m), String())", SV, SVPRE, "quick"),
